@@ -21,6 +21,8 @@ RULES = {
     "interprets, or a body",
     "responses": "Hypothesis: every response recipe (8 classes, cookies, header operations) used as application and as view result; "
     "status, header multiset and body must be equal on both interfaces",
+    "filegrid": "enumerated: FileResponse (size, chunk) pairs x Range shapes (shorter/longer than a chunk, multiples and non-multiples of it, ending "
+    "inside the file, multi-range, refused) x GET/HEAD x app/view result, compared across the two interfaces",
     "conditional": "Hypothesis: Files / Pages (bare and mounted) and FileResponse over files whose mtime and ctime are set apart through the harness's "
     "stat clock; a plain GET, then a revalidation built from the validators the server itself handed out (own Last-Modified, dates around "
     "mtime and ctime, own/weak/foreign ETag, Range + If-Range); non-trivial = mtime and ctime fall in different seconds",
@@ -257,7 +259,7 @@ def conditional_case(draw):
     return {"app": app, "prefix": prefix, "path": path, "mtime": base, "ctime": base + delta, "conds": conds, "method": draw(st.sampled_from(["GET", "GET", "HEAD"]))}
 
 
-SUBS = {"echo": oracle_echo, "responses": oracle_responses, "apps": oracle_apps, "conditional": oracle_conditional}
+SUBS = {"echo": oracle_echo, "responses": oracle_responses, "apps": oracle_apps, "conditional": oracle_conditional, "filegrid": oracle_responses}
 
 # ------------------------------------------------------------------------------------------
 # generators
@@ -444,8 +446,23 @@ def app_case(draw):
     return {"app": app, "request": rq}
 
 
+def file_grid(quick):
+    """Deterministic product for the file response on both interfaces: ranges shorter / longer than the
+    chunk size, multiples and non-multiples of it, ending before the end of the file, multi-range, refused."""
+    shapes = [(12, 5), (64, 3), (200, 64)] + ([] if quick else [(200, 1), (4623, 4096), (130, 64)])
+    ranges = [None, "bytes=0-6", "bytes=1-9", "bytes=0-63", "bytes=0-127", "bytes=5-100", "bytes=2-", "bytes=-7", "bytes=0-0,5-9", "bytes=0-3,8-", "bytes=0-70,100-190", "bytes=999999-", "bytes=5-4", "junk"]
+    for size, chunk in shapes:
+        for rng in ranges:
+            for method in ("GET", "HEAD"):
+                for as_view in (False, True):
+                    headers = [] if rng is None else [["Range", rng]]
+                    yield {"response": {"kind": "file", "name": "f.txt", "size": size, "chunk": chunk}, "request": gw.areq(method=method, path="/", headers=headers), "as_view": as_view}
+
+
 def run(rec, only=None):
     quick = rec.tier == "quick"
+    core.drive_cases(rec, "filegrid", file_grid(quick), oracle_responses)
+    rec.exhaustive["filegrid"] = True
     core.drive_hypothesis(rec, "echo", echo_case(), oracle_echo, 1500 if quick else 40000)
     core.drive_hypothesis(rec, "responses", response_case(), oracle_responses, 1000 if quick else 25000, seed_offset=1)
     core.drive_hypothesis(rec, "apps", app_case(), oracle_apps, 1200 if quick else 30000, seed_offset=2)
